@@ -110,7 +110,9 @@ func (r *reference) resolveRef(cfg *Config, opts *options) (value, error) {
 	verifResolve(r)
 	env := opts.env
 
+	opts.eval.add(r.Path.String())
 	if ok := opts.activeFields.AddNew(r.Path.String()); !ok {
+		opts.eval.cycles++
 		return nil, raiseCyclicErr(r.Path.String())
 	}
 
